@@ -9,10 +9,12 @@ void harness(void) {
   int64_t x = (int64_t)in_u64(), y = (int64_t)in_u64();
   uint8_t err = 0;
   int64_t t;
-  /* precondition: the analysed program's expression is free of UB at 64 bit */
+  /* precondition: the analysed program's expression is free of UB at 64 bit (dropped in the C13 twin unless the known finding is blocked) */
+#if !defined(C13MODE) || defined(KF_SIGNED_OVERFLOW_IN_CALCULATE)
   if (k == 0) __CPROVER_assume(!__builtin_add_overflow(x, y, &t));
   if (k == 1 || k == 18) __CPROVER_assume(!__builtin_sub_overflow(x, y, &t));
   if (k == 2) __CPROVER_assume(!__builtin_mul_overflow(x, y, &t));
+#endif
   int64_t r = (int64_t)k_calc((uint8_t*)&op, (uint64_t)x, (uint64_t)y, &err);
   H_OUT("err", err); H_OUT("r", r);
   H_ASSERT(!__exc_pending, "no exception for a known operator");
